@@ -48,6 +48,7 @@ func hSendProto(o Op) map[string]interface{} {
 	var sendErr error
 	sendRet := false
 	var rres *refRecvResult
+	var sendRetAt time.Time
 	done := make(chan int, 2)
 	go func() {
 		sendErr = fsutil.Send(ctx, s, fs, func(n int, last bool) {
@@ -55,27 +56,34 @@ func hSendProto(o Op) map[string]interface{} {
 			progress = append(progress, [2]int{n, b2i(last)})
 			pmu.Unlock()
 		})
+		sendRetAt = time.Now()
 		sendRet = true
 		log.add(logEv{End: "S", Kind: "return", N: b2i(sendErr != nil)})
 		s.closeSend()
 		done <- 1
 	}()
 	go func() {
-		rres = runRefReceiver(r, refRecvCfg{Reqs: reqs, Seed: cfg.Seed})
+		rres = runRefReceiver(r, refRecvCfg{Reqs: reqs, Seed: cfg.Seed, Stall: opt.boolean("stall")})
 		r.closeSend()
 		done <- 2
 	}()
-	timer := time.NewTimer(20 * time.Second)
+	to := 20 * time.Second
+	if opt.boolean("stall") {
+		to = 300 * time.Millisecond
+	}
+	timer := time.NewTimer(to)
 	n := 0
 	blocked := false
+	var tornAt time.Time
 	for n < 2 {
 		select {
 		case <-done:
 			n++
 		case <-timer.C:
-			blocked = true
+			blocked = !opt.boolean("stall")
 			sh.teardown()
-			t2 := time.NewTimer(5 * time.Second)
+			tornAt = time.Now()
+			t2 := time.NewTimer(3 * time.Second)
 			for n < 2 {
 				select {
 				case <-done:
@@ -86,10 +94,17 @@ func hSendProto(o Op) map[string]interface{} {
 			}
 		}
 	}
-	out := map[string]interface{}{"send": errClass(sendErr, sendRet), "view": view, "log": logJSON(log, false),
+	alive, aliveAt := waitQuiesce(500 * time.Millisecond)
+	out := map[string]interface{}{"send": errClass(sendErr, sendRet), "view": view, "log": logJSON(log, false), "alive": alive, "alive_at": aliveAt,
 		"overlaps": []int32{s.overlapS, s.overlapR, r.overlapS, r.overlapR}, "blocked": blocked}
 	if sendErr != nil {
 		out["senderr"] = sendErr.Error()
+	}
+	if !tornAt.IsZero() {
+		out["torn"] = true
+		if sendRet {
+			out["send_after_tear"] = sendRetAt.Sub(tornAt).Seconds()
+		}
 	}
 	pmu.Lock()
 	out["progress"] = progress
